@@ -2,7 +2,9 @@ package checks
 
 import (
 	"bytes"
+	"errors"
 	"fmt"
+	"io/fs"
 	"path"
 	"strings"
 
@@ -59,6 +61,29 @@ func c07Layout(id, lay, extraFM string) string {
 		fm = "---\n" + fm + "---\n"
 	}
 	return fm + `<div id="` + id + `"><b class="k">{{ k }}</b><section v-html="content"></section></div>`
+}
+
+// wrapErrFS decorates a file system the way multi-tenant or tracing wrappers do: every error of
+// Open comes back with context around it.
+type wrapErrFS struct {
+	fs.FS
+	own bool
+}
+
+type c07NotFound struct{ name string }
+
+func (e c07NotFound) Error() string        { return "tenant acme: no such template: " + e.name }
+func (e c07NotFound) Is(target error) bool { return target == fs.ErrNotExist }
+
+func (w wrapErrFS) Open(name string) (fs.File, error) {
+	f, err := w.FS.Open(name)
+	if err != nil && w.own && errors.Is(err, fs.ErrNotExist) {
+		return nil, c07NotFound{name}
+	}
+	if err != nil {
+		return nil, fmt.Errorf("tenant acme: %w", err)
+	}
+	return f, nil
 }
 
 func c07IDs(out string) []string {
@@ -345,6 +370,10 @@ func (c *c07Case) Run(ctx *core.Ctx) {
 	var buf bytes.Buffer
 	t := vuego.NewFS(files.FS())
 	switch c.Ctor {
+	case "wrapfs": // a file system whose errors are wrapped once more (errors.Is still finds fs.ErrNotExist in them)
+		t = vuego.NewFS(wrapErrFS{FS: files.FS()})
+	case "owntype": // ... or of a type of its own with an Is method
+		t = vuego.NewFS(wrapErrFS{FS: files.FS(), own: true})
 	case "withfs":
 		t = vuego.New(vuego.WithFS(files.FS()))
 	case "replace":
@@ -442,6 +471,8 @@ func init() {
 										if al == "none" || bl == "none" {
 											emit(&c07Case{Part: "graph", PageDir: dir, PageLay: pl, PageSrc: src, ALay: al, BLay: bl, Base: base, Twin: twin, Ctor: "withfs"})
 											emit(&c07Case{Part: "graph", PageDir: dir, PageLay: pl, PageSrc: src, ALay: al, BLay: bl, Base: base, Twin: twin, Ctor: "replace"})
+											emit(&c07Case{Part: "graph", PageDir: dir, PageLay: pl, PageSrc: src, ALay: al, BLay: bl, Base: base, Twin: twin, Ctor: "wrapfs"})
+											emit(&c07Case{Part: "graph", PageDir: dir, PageLay: pl, PageSrc: src, ALay: al, BLay: bl, Base: base, Twin: twin, Ctor: "owntype"})
 										}
 									}
 								}
